@@ -44,7 +44,23 @@ func TestVerifChannelQuorum(t *testing.T) {
 	steps := env.Pick(45, 70)
 	rng := env.Rand()
 	for i := 0; i < traces; i++ {
-		if err := randomTrace(rng, rep, rec, steps, memFactory); err != nil {
+		factory := memFactory
+		// real Pebble-backed message stores (pkg/db/message behind pkg/channel/store): a few traces in
+		// the quick tier, every second one in the thorough tier
+		if (env.Thorough() && i%2 == 1) || (!env.Thorough() && i%7 == 3) {
+			dir, derr := os.MkdirTemp(env.OutDir, "mdb-")
+			if derr != nil {
+				rep.Infra("tempdir: %v", derr)
+				break
+			}
+			n := 0
+			factory = func() channelstore.Factory {
+				n++
+				return channelstore.NewMessageDBFactory(fmt.Sprintf("%s/node%d", dir, n))
+			}
+			rep.AddExtra("traces_on_messagedb_stores", 1)
+		}
+		if err := randomTrace(rng, rep, rec, steps, factory); err != nil {
 			rep.Infra("random trace %d: %v", i, err)
 			break
 		}
@@ -281,7 +297,8 @@ func (s *scenarioCtx) note(format string, a ...any) { s.log = append(s.log, fmt.
 
 func newScenario(rep *kit.Report) (*scenarioCtx, error) {
 	rec, _ := kit.NewRecorder("")
-	c, err := newCluster(rec, memFactory, time.Hour, 4, 1<<20)
+	// one retained command: every retry of an older command goes through the durable command index
+	c, err := newCluster(rec, memFactory, time.Hour, 1, 1<<20)
 	if err != nil {
 		return nil, err
 	}
@@ -314,6 +331,7 @@ func runScenarios(env kit.Env, rep *kit.Report) {
 		{"V_minority_tail_is_not_selected", scenarioMinorityTail},
 		{"C04_deposed_and_fenced_authority", scenarioAuthorityFencing},
 		{"C01_write_quorum_must_intersect", scenarioNonIntersectingQuorum},
+		{"C03_retry_after_eviction_and_restart", scenarioRetryStability},
 	} {
 		s, err := newScenario(rep)
 		if err != nil {
@@ -672,5 +690,78 @@ func scenarioNonIntersectingQuorum(s *scenarioCtx) error {
 				map[string]any{"scenario": "non-intersecting-quorum", "schedule": s.log})
 		}
 	}
+	return nil
+}
+
+
+// C03: retries are answered from the retained ring, after eviction from the durable command index,
+// and after an owner restart + re-Install of the same authority — always with the original range,
+// storing nothing again; changed content under a used command id is rejected on each of these paths.
+func scenarioRetryStability(s *scenarioCtx) error {
+	if _, err := s.mustInstall(1, 1); err != nil {
+		return err
+	}
+	cmds := []command{mkCommand(1, 3, 1, 0), mkCommand(2, 1, 1, 0), mkCommand(3, 2, 1, 0), mkCommand(4, 1, 1, 0)}
+	var first []replication.Receipt
+	next := uint64(1)
+	for i, cmd := range cmds {
+		rc, err := s.c.commit(1, aid(1), cmd, false, callTimeout)
+		s.note("Commit(cmd %d, %d records) -> %+v, %v", i+1, len(cmd.records), rc, err)
+		if err != nil {
+			return fmt.Errorf("setup commit %d: %w", i+1, err)
+		}
+		if rc.First != next || rc.Last != next+uint64(len(cmd.records))-1 {
+			s.rep.Violate("C03", "scenario", fmt.Sprintf("receipt %+v of command %d: expected [%d,%d] right after the previous log end", rc, i+1, next, next+uint64(len(cmd.records))-1),
+				map[string]any{"scenario": "retry-stability", "schedule": s.log})
+			return nil
+		}
+		next = rc.Last + 1
+		first = append(first, rc)
+	}
+	time.Sleep(20 * time.Millisecond) // trailing follower
+	check := func(phase string) bool {
+		before := s.views()
+		for i, cmd := range cmds {
+			rc, err := s.c.commit(1, aid(1), cmd, false, callTimeout)
+			s.note("%s: retry cmd %d -> %+v, %v", phase, i+1, rc, err)
+			if err != nil {
+				// a retry may fail closed; it must never return another range
+				continue
+			}
+			if rc.First != first[i].First || rc.Last != first[i].Last || rc.CommandID != first[i].CommandID {
+				s.rep.Violate("C03", "scenario", fmt.Sprintf("%s: retry of command %d returned %+v, the original receipt was %+v", phase, i+1, rc, first[i]),
+					map[string]any{"scenario": "retry-stability", "schedule": s.log})
+				return false
+			}
+			changed := mkCommand(i+1, len(cmd.records), 1, 9)
+			if rc2, err2 := s.c.commit(1, aid(1), changed, true, callTimeout); err2 == nil {
+				s.rep.Violate("C03", "scenario", fmt.Sprintf("%s: command id %d re-used with different content was acknowledged: %+v", phase, i+1, rc2),
+					map[string]any{"scenario": "retry-stability", "schedule": s.log})
+				return false
+			}
+		}
+		after := s.views()
+		for _, v := range voters {
+			if after[v].leo != before[v].leo {
+				s.rep.Violate("C03", "scenario", fmt.Sprintf("%s: retries stored again: node %d log end %d -> %d", phase, v, before[v].leo, after[v].leo),
+					map[string]any{"scenario": "retry-stability", "schedule": s.log})
+				return false
+			}
+		}
+		return true
+	}
+	if !check("retained ring / evicted") {
+		return nil
+	}
+	s.c.crash(1)
+	if err := s.c.restart(1); err != nil {
+		return err
+	}
+	s.note("Crash(node 1); Restart(node 1)")
+	if _, err := s.mustInstall(1, 1); err != nil {
+		s.note("re-install of the same authority failed closed: %v", err)
+		return nil
+	}
+	check("after owner restart")
 	return nil
 }
